@@ -82,6 +82,29 @@ def run_check(tier, seed, replay=None):
                     "the predictor no longer predicts what the frozen format (Match.tla) demands: %s on %s, parameters %s" % (
                         json.dumps(ev), x["reset"].get("label"), x["reset"].get("params")),
                     {"kind": "deflate-hex", "hex": case.get("hex"), "event": ev, "seed": seed})
+    # the same, exhaustively at small scope (the implementation's side of MC_Match): every plaintext of
+    # up to n bytes over two letters, every valid parse, every parameter vector of MC_Match
+    vecs = os.path.join(wd, "match_vectors.json")
+    generate("MC_Match", wd, vecs, constants={"N": 1, "Alphabet": "{97}", "Asym": "FALSE"}, invariants=["Replay"], workers=1, timeout=600)
+    xtr = os.path.join(wd, "match_exhaustive.trace")
+    vh(["match-exhaustive", "--n", 8 if q else 10, "--vectors", vecs, "--out", xtr], timeout=7200)
+    xcases = {r["run"]: r for r in read_ndjson(xtr + ".cases")}
+    xacc, xrej, xstates = validate_runs("Trace_Match", wd, xtr, view="TraceView", heap="12g", timeout=14000)
+    c.cov["traces_validated_against_impl"] += xacc
+    c.cov["states"] += xstates
+    c.cov["transitions"] += xstates
+    c.cov["prediction_traces"]["exhaustive_small_scope_runs"] = len(xcases)
+    if xacc == 0:
+        raise ToolError("vacuity: no exhaustive small-scope run was analysed")
+    for x in xrej:
+        if not same_versions:
+            continue
+        ev = x["event"]
+        case = xcases.get(x["run"], {})
+        c.violation("prediction:%s" % ev.get("e"),
+                    "the predictor no longer predicts / corrects what the frozen format (Match.tla) demands: %s on %s, parameters %s" % (
+                        json.dumps(ev), x["reset"].get("label"), x["reset"].get("params")),
+                    {"kind": "deflate-hex", "hex": case.get("hex"), "forced": case.get("forced"), "event": ev, "seed": seed})
     # frozen explicit format: operation grammar, parameter header, tree prediction and the
     # Huffman length calculation (Stream / Params / TreePredict / HuffCalc) on the current build
     from stream_common import record_stream_traces, validate_stream_traces
